@@ -76,11 +76,51 @@
 //       - the magnitude usage_counts_small is NOT a precondition here: derived from sv_ok (lemma_usage_counts_small: an exact
 //         usage table counts real vehicles only, ids are 16 bit).
 //
-// NOT covered: (1) connectedness of the new dummy tour (A-path / D9, as in slices/remove_segment.vs); preservation of rs_ok /
-//   listings_match as a whole (only ids_ok, usage_exact, sortedness of the lists and the transition clauses are shown for the
-//   result); the error messages.  (3) WHEN the result is Ok beyond the three Err clauses (inherited from
+// CLOSURE (C10 "After any sequence of schedule modifications …", C09 / C11 "… for every reachable schedule": the INDUCTION STEP --
+//   on Ok the result satisfies the schedule-invariant part of the function's own precondition bundle AGAIN; obligations tagged
+//   C10.<function>.result_satisfies_the_schedule_invariants_again; vocabulary and lemmas: last three sections of
+//   env/dummy_ops_shim.vs, rd_closed / dd_closed / sd_closed list the conjuncts):
+//   (1) schedule invariants of the precondition = rs_ok = sched_ok + ids_ok + formations_ok + transitions_ok + usage_exact; "about the
+//       arguments" = listed_ok(v), tfu_pre(.., nodes of the tour of v).  Proved for the result, unconditionally: ids_ok, formations_ok
+//       (lemma_rd_closure_formations: v leaves the formations of its tour, "removals keep the order", every other vehicle stays
+//       listed), transitions_ok (lemma_rd_closure_transitions; the magnitude clause `fewer than 2^17 vehicles in the cycles` by
+//       counting: the cycles hold exactly the vehicles, `Vehicle` ids are 16 bit), usage_exact.  sched_ok -- network, number of
+//       vehicles, vehicle_ok for every vehicle, `sum of the tours' costs <= costs <= 2^61` (costs shrink by exactly the costs of
+//       the tour that went) -- and with it rs_ok as a whole: proved GIVEN rd_listing_exact(result), i.e. the two conjuncts of
+//       sched_ok that say what `sched_vehicles(result)` IS (duplicate-free, lists exactly the vehicles with a tour):
+//       sched_vehicles is an UNINTERPRETED function of the whole schedule value (A-iter, env/schedule_shim.vs), so nothing about
+//       the listing of a new schedule value follows from any effect clause (lemma_rd_closure_sched).
+//       The schedule-invariant readings of the argument clauses: listed_ok holds for every OTHER vehicle for which it held; lists
+//       that matched the vehicles of their type (the one of v: once) still match (listings_match); every dummy that was listed
+//       still is and the new one is (dummy_listed_ok); every dummy tour that was dummy_tour_ok still is; an exact dummy listing
+//       (dd_dummy_listing_exact: sorted, duplicate-free, exactly the ids of the dummy tours) stays exact.  tfu_pre is not treated
+//       (u32 magnitudes and C09 for the unserved-passenger pair w.r.t. the nodes of ONE tour: required as is by (1)).
+//   (2) the precondition has one schedule invariant, sorted_cmp(dummy_ids_sorted) (the rest of dummy_listed_ok(d) is about d):
+//       proved, with ids_ok, dummy_listed_ok / dummy_tour_ok for every OTHER dummy, dd_dummy_listing_exact.  Every other component is
+//       the same, so every other invariant is INHERITED, stated one by one: formations_ok, transitions_ok, usage_exact,
+//       listings_match, listed_ok for every vehicle, type_known for every type, and the bundles sv_ok (lemma_dd_sv_ok) and rs_ok
+//       (lemma_dd_rs_ok; again GIVEN rd_listing_exact(result): sched_vehicles(result) is not known to be sched_vehicles(self)).
+//   (3) schedule invariants of the precondition = sv_ok = Network::wf + depot_lists_ok + sv_ids_ok + sv_formations_ok +
+//       transitions_ok + usage_exact + `costs <= 2^61`; instance validity: start_depots_ok, type_known (for every type); "about
+//       the arguments" = type_known(vt), dummy_listed_ok / dummy_tour_ok / spawn_counter_ok for d, some_depot_has_room(vt) (C06 /
+//       C17: NOT an invariant -- a spawn uses room up).  From delete_dummy's closure and the closure lemma of
+//       spawn_vehicle_for_path (spcl_lemma_closure, env/spawn_vehicle_shim.vs: proved from the effect clauses of its contract,
+//       which this slice stubs), proved unconditionally: network clauses, sv_ids_ok, three of the five clauses of sv_formations_ok
+//       (every activity has a formation; the trips' types; C09 the cached unserved pair covers every duplicate-free node list),
+//       transitions_ok, usage_exact.  NOT invariants of a spawn, proved under the weakest hypothesis on the RESULT: the two
+//       magnitude clauses of sv_formations_ok (a formation lists at most 2^17 vehicles; its u32 capacity / seat sums fit with one
+//       more vehicle of any type) GIVEN the same clause for the formations that grew (spcl_grown_len_small / spcl_grown_sums_fit
+//       for the activities of the new tour); sv_ok as a whole GIVEN these two and `result.costs <= 2^61` (the costs grow by the new
+//       tour's costs).  Also: known types stay known, matching listings still match, every listed vehicle is still listed and
+//       the new one is, every OTHER dummy is still listed / dummy_tour_ok, an exact dummy listing stays exact.
+//
+// NOT covered: (1) connectedness of the new dummy tour (A-path / D9, as in slices/remove_segment.vs), hence dummy_tour_ok for
+//   the NEW dummy tour (the precondition (3) has for the dummy it replaces) is not re-established; closure of tfu_pre; sched_ok /
+//   rs_ok of the result without the premise rd_listing_exact(result) ((1), (2): the link between sched_vehicles and the grouped id
+//   lists is not in the vocabulary); the error messages.  (3) WHEN the result is Ok beyond the three Err clauses (inherited from
 //   spawn_vehicle_for_path, whose contract does not characterise it); that the callers establish the preconditions, in
-//   particular some_depot_has_room (C17 is not connected to it).
+//   particular some_depot_has_room (C17 is not connected to it); the magnitude clauses of sv_ok without hypotheses on the result.
+//   Other slices stub these three functions with the contract text WITHOUT the closure clauses (a weaker, sound stub).
 #![feature(allocator_api)]
 use vstd::prelude::*;
 use std::ops::Add;
@@ -244,6 +284,8 @@ impl Clone for TransitionCycle {
         final(dummy_tours)@ == old(dummy_tours)@.insert(new_dummy_idx, new_dummy_tour), // @obl C13.add_dummy_tour.tour_stored_under_id
         ids_gain(old(dummy_ids_sorted)@, final(dummy_ids_sorted)@, new_dummy_idx), // @obl C13.add_dummy_tour.id_list_gains_exactly_id
         sorted_cmp(final(dummy_ids_sorted)@), // @obl C13.add_dummy_tour.id_list_stays_sorted
+        // CLOSURE: the only schedule invariant among the preconditions (the id list is sorted) holds again
+        sorted_cmp(final(dummy_ids_sorted)@), // @obl C10.add_dummy_tour.result_satisfies_the_schedule_invariants_again
 //@end
 // verified in slice train_formation_update; contract text copied from there (R12: the parameter
 // `moved_nodes: impl Iterator<Item = NodeIdx>` is retyped to the shim iterator SeqIter<NodeIdx>)
@@ -381,6 +423,35 @@ impl Clone for TransitionCycle {
             && usage_exact(r->Ok_0.0.depot_usage@, &self.network, r->Ok_0.0.vehicles@, r->Ok_0.0.tours@), // @obl C09.spawn_vehicle.depot_usage_exact
         // C15 / C10 / C09: rotation cycles and maintenance violation
         r is Ok ==> self.transitions_follow(vehicle_type_idx, &r->Ok_0.0), // @obl C10.spawn_vehicle.transitions_follow_new_tours
+        // ---- CLOSURE (C10 "after any sequence of schedule modifications", C09 / C11 "for every reachable schedule"): the result
+        // satisfies the schedule-invariant bundle sv_ok() of the precondition AGAIN, conjunct by conjunct (spcl_lemma_closure,
+        // env/spawn_vehicle_shim.vs).  Instance validity: the network is the same
+        r is Ok ==> r->Ok_0.0.network.wf() && depot_lists_ok(&r->Ok_0.0.network), // @obl C10.spawn_vehicle.result_satisfies_the_schedule_invariants_again
+        // ids / listings: vehicles under their own `Vehicle` id below the counter, with a tour; dummies under `Dummy` ids; id lists sorted
+        r is Ok ==> r->Ok_0.0.sv_ids_ok(), // @obl C10.spawn_vehicle.result_satisfies_the_schedule_invariants_again
+        // formations: every activity has an entry; the instance clause (A-types); C09: the cached unserved-passengers pair covers
+        // every duplicate-free list of nodes w.r.t. the NEW table (re-established from the clause itself and the exact delta)
+        r is Ok ==> r->Ok_0.0.spcl_forms_cover_activities() && r->Ok_0.0.spcl_trips_typed() && r->Ok_0.0.spcl_unserved_covers(), // @obl C10.spawn_vehicle.result_satisfies_the_schedule_invariants_again
+        // formations, MAGNITUDE clauses (at most 2^17 vehicles per formation; the u32 capacity / seat sums fit with one more vehicle):
+        // NOT invariants of the operation (every formation along the new tour grows by one vehicle, and sv_ok does not relate the
+        // length of a formation to the number of vehicles); they hold again under the weakest hypothesis on the RESULT: the clause
+        // itself for the formations that grew (the activities of the new tour) -- everywhere else it is inherited
+        r is Ok && r->Ok_0.0.spcl_grown_len_small(r->Ok_0.0.tours@[r->Ok_0.1].nodes@) ==> r->Ok_0.0.spcl_forms_len_small(), // @obl C10.spawn_vehicle.result_satisfies_the_schedule_invariants_again
+        r is Ok && r->Ok_0.0.spcl_grown_sums_fit(r->Ok_0.0.tours@[r->Ok_0.1].nodes@) ==> r->Ok_0.0.spcl_forms_sums_fit(), // @obl C10.spawn_vehicle.result_satisfies_the_schedule_invariants_again
+        r is Ok && r->Ok_0.0.spcl_grown_len_small(r->Ok_0.0.tours@[r->Ok_0.1].nodes@) && r->Ok_0.0.spcl_grown_sums_fit(r->Ok_0.0.tours@[r->Ok_0.1].nodes@)
+            ==> r->Ok_0.0.sv_formations_ok(), // @obl C10.spawn_vehicle.result_satisfies_the_schedule_invariants_again
+        // rotation cycles: every clause of transitions_ok, INCLUDING its magnitude clause (fewer than 2^17 vehicles in the cycles:
+        // they hold exactly the vehicles, and ids are 16 bit)
+        r is Ok ==> r->Ok_0.0.transitions_ok(), // @obl C10.spawn_vehicle.result_satisfies_the_schedule_invariants_again
+        // depot usage: exact w.r.t. the result's own network
+        r is Ok ==> usage_exact(r->Ok_0.0.depot_usage@, &r->Ok_0.0.network, r->Ok_0.0.vehicles@, r->Ok_0.0.tours@), // @obl C10.spawn_vehicle.result_satisfies_the_schedule_invariants_again
+        // the bundle.  `costs <= 2^61` is a magnitude clause, too, and not an invariant (costs grow by the costs of the new tour):
+        // it is a hypothesis on the result
+        r is Ok && r->Ok_0.0.spcl_grown_len_small(r->Ok_0.0.tours@[r->Ok_0.1].nodes@) && r->Ok_0.0.spcl_grown_sums_fit(r->Ok_0.0.tours@[r->Ok_0.1].nodes@)
+            && r->Ok_0.0.costs <= sched_cost_bound() ==> r->Ok_0.0.sv_ok(), // @obl C10.spawn_vehicle.result_satisfies_the_schedule_invariants_again
+        // the preconditions outside sv_ok that are not about the path: a known vehicle type stays known; A-index for the start depots
+        r is Ok ==> forall|t: VehicleTypeIdx| self.type_known(t) ==> #[trigger] r->Ok_0.0.type_known(t), // @obl C10.spawn_vehicle.result_satisfies_the_schedule_invariants_again
+        r is Ok ==> r->Ok_0.0.network.start_depots_ok(), // @obl C10.spawn_vehicle.result_satisfies_the_schedule_invariants_again
 //@end
 
 // D11 (fixed in /repo): the index of the next vehicle or dummy; refuses when all 2^16 indices have been handed out.
@@ -433,8 +504,43 @@ impl Clone for TransitionCycle {
         r is Ok ==> self.rd_transitions_follow(vehicle_idx, &r->Ok_0), // @obl C10.replace_by_dummy.transitions_follow
         // C10: the ids stay valid (in particular every dummy id is below the counter: the next id is fresh again)
         r is Ok ==> r->Ok_0.ids_ok(), // @obl C10.replace_by_dummy.ids_stay_valid
+        // ---- CLOSURE (C10 / C09 induction step): the result satisfies the schedule invariants of the precondition (rs_ok) again,
+        // conjunct by conjunct (rd_closed, env/dummy_ops_shim.vs).  ids_ok: the line above; usage_exact: C09.replace_by_dummy.
+        // depot_usage_exact above, repeated here w.r.t. the result's own network.
+        r is Ok ==> usage_exact(r->Ok_0.depot_usage@, &r->Ok_0.network, r->Ok_0.vehicles@, r->Ok_0.tours@), // @obl C10.replace_vehicle_by_dummy.result_satisfies_the_schedule_invariants_again
+        // formations: every activity has a formation, which lists the vehicles whose tours contain the node
+        r is Ok ==> r->Ok_0.formations_ok(), // @obl C10.replace_vehicle_by_dummy.result_satisfies_the_schedule_invariants_again
+        // transitions: one transition per type, consistent with the tours, holding exactly the vehicles of the type, the violation
+        // is their sum; the magnitude clause (fewer than 2^17 vehicles in the cycles) by counting: ids are 16 bit
+        r is Ok ==> r->Ok_0.transitions_ok(), // @obl C10.replace_vehicle_by_dummy.result_satisfies_the_schedule_invariants_again
+        // sched_ok (network, number of vehicles, vehicle_ok for every vehicle, the cost figure covers the tours' costs and stays
+        // below 2^61) and with it the whole bundle -- GIVEN the two conjuncts of sched_ok that say what the uninterpreted listing
+        // sched_vehicles(result) is (rd_listing_exact: duplicate-free, lists exactly the vehicles with a tour; A-iter)
+        r is Ok && rd_listing_exact(&r->Ok_0) ==> r->Ok_0.sched_ok(), // @obl C10.replace_vehicle_by_dummy.result_satisfies_the_schedule_invariants_again
+        r is Ok && rd_listing_exact(&r->Ok_0) ==> r->Ok_0.rs_ok(), // @obl C10.replace_vehicle_by_dummy.result_satisfies_the_schedule_invariants_again
+        // listings (the schedule-invariant reading of listed_ok: it holds for every vehicle): every other listed vehicle is still
+        // listed; lists that held exactly the vehicles of their type (the one of v: once) still do
+        r is Ok ==> forall|u: VehicleIdx| u != vehicle_idx && self.vehicles@.contains_key(u) && self.listed_ok(u) ==> #[trigger] r->Ok_0.listed_ok(u), // @obl C10.replace_vehicle_by_dummy.result_satisfies_the_schedule_invariants_again
+        r is Ok && self.listings_match() && self.listing(self.type_of(vehicle_idx)).no_duplicates() ==> r->Ok_0.listings_match(), // @obl C10.replace_vehicle_by_dummy.result_satisfies_the_schedule_invariants_again
+        // dummy listings (the schedule-invariant reading of the preconditions (2) / (3) have for a dummy: they hold for every dummy):
+        // every dummy that was listed still is, and the new one is; every dummy tour that was a well-formed dummy tour of the network
+        // still is (NOT shown for the NEW dummy tour: Tour::new_dummy's contract says nothing about connectedness, A-path / D9); a
+        // list that held exactly the ids of the dummy tours, once each, still does
+        r is Ok ==> forall|d2: VehicleIdx| self.dummy_listed_ok(d2) ==> #[trigger] r->Ok_0.dummy_listed_ok(d2), // @obl C10.replace_vehicle_by_dummy.result_satisfies_the_schedule_invariants_again
+        r is Ok && self.needs_dummy(vehicle_idx) ==> r->Ok_0.dummy_listed_ok(self.next_dummy_id()), // @obl C10.replace_vehicle_by_dummy.result_satisfies_the_schedule_invariants_again
+        r is Ok ==> forall|d2: VehicleIdx| self.dummy_tours@.contains_key(d2) && self.dummy_tour_ok(d2)
+            ==> r->Ok_0.dummy_tours@.contains_key(d2) && #[trigger] r->Ok_0.dummy_tour_ok(d2), // @obl C10.replace_vehicle_by_dummy.result_satisfies_the_schedule_invariants_again
+        r is Ok && self.dd_dummy_listing_exact() ==> r->Ok_0.dd_dummy_listing_exact(), // @obl C10.replace_vehicle_by_dummy.result_satisfies_the_schedule_invariants_again
 //@first
         hide(Schedule::rs_ok);
+        hide(Schedule::sched_ok);
+        hide(Schedule::formations_ok);
+        hide(Schedule::listings_match);
+        hide(rd_listing_exact);
+        hide(rd_effect);
+        hide(Schedule::dummy_listed_ok);
+        hide(Schedule::dummy_tour_ok);
+        hide(Schedule::dd_dummy_listing_exact);
         hide(Schedule::transitions_ok);
         hide(Schedule::listed_ok);
         hide(Schedule::upd_pre);
@@ -513,6 +619,18 @@ impl Clone for TransitionCycle {
             if rd_ids_step(self, v, vehicles@, tours@, dummy_tours@, dummy_ids_sorted@, vehicle_counter, added) {
                 lemma_rd_ids_valid(self, v, vehicles@, tours@, dummy_tours@, dummy_ids_sorted@, vehicle_counter, added); // @obl C10.replace_by_dummy.ids_stay_valid
             }
+            // CLOSURE: the schedule that is about to be built, as a ghost value; the effect clauses shown above hold for it, hence
+            // (lemma_rd_closure) the invariants
+            let ghost s1 = Schedule {
+                vehicles: vehicles, tours: tours, next_period_transitions: next_period_transitions, train_formations: train_formations,
+                depot_usage: depot_usage, dummy_tours: dummy_tours, vehicle_counter: vehicle_counter,
+                vehicle_ids_grouped_and_sorted: vehicle_ids_grouped_and_sorted, dummy_ids_sorted: dummy_ids_sorted,
+                unserved_passengers: unserved_passengers, maintenance_violation: maintenance_violation, costs: costs, network: self.network,
+            };
+            reveal(rd_effect);
+            if rd_effect(self, v, &s1) {
+                lemma_rd_closure(self, v, &s1); // @obl C10.replace_vehicle_by_dummy.result_satisfies_the_schedule_invariants_again
+            }
         }
 //@end
 
@@ -530,7 +648,47 @@ impl Clone for TransitionCycle {
         r is Ok ==> self.dummy_gone(dummy, &r->Ok_0), // @obl C13.delete_dummy.dummy_tour_and_id_disappear
         // "… and nothing else"
         r is Ok ==> self.same_but_dummies(&r->Ok_0), // @obl C13.delete_dummy.nothing_else_changes
+        // (the three clauses above in one: the Ok-postcondition as the composition in (3) and the closure lemmas name it)
+        r is Ok ==> self.dummy_deleted(dummy, &r->Ok_0), // @obl C13.delete_dummy.dummy_tour_and_id_disappear
+        // ---- CLOSURE (C10 / C09 induction step), conjunct by conjunct (dd_closed, env/dummy_ops_shim.vs).  The listing / id
+        // invariants the operation touches: the list of dummy ids stays sorted; ids_ok again; every OTHER dummy that was listed
+        // (dummy_listed_ok, the schedule-invariant reading: for every dummy) still is, and is still a well-formed dummy tour of the
+        // network; a list that held exactly the ids of the dummy tours, once each, still does
+        r is Ok ==> sorted_cmp(r->Ok_0.dummy_ids_sorted@), // @obl C10.delete_dummy.result_satisfies_the_schedule_invariants_again
+        r is Ok && self.ids_ok() ==> r->Ok_0.ids_ok(), // @obl C10.delete_dummy.result_satisfies_the_schedule_invariants_again
+        r is Ok ==> forall|d2: VehicleIdx| d2 != dummy && self.dummy_listed_ok(d2) ==> #[trigger] r->Ok_0.dummy_listed_ok(d2), // @obl C10.delete_dummy.result_satisfies_the_schedule_invariants_again
+        r is Ok ==> forall|d2: VehicleIdx| d2 != dummy && self.dummy_tours@.contains_key(d2) && self.dummy_tour_ok(d2)
+            ==> r->Ok_0.dummy_tours@.contains_key(d2) && #[trigger] r->Ok_0.dummy_tour_ok(d2), // @obl C10.delete_dummy.result_satisfies_the_schedule_invariants_again
+        r is Ok && self.dd_dummy_listing_exact() ==> r->Ok_0.dd_dummy_listing_exact(), // @obl C10.delete_dummy.result_satisfies_the_schedule_invariants_again
+        // everything else is unchanged (same_but_dummies), so every other invariant is INHERITED: formations, rotation cycles, depot
+        // usage, vehicle listings, known types ...
+        r is Ok && self.formations_ok() ==> r->Ok_0.formations_ok(), // @obl C10.delete_dummy.result_satisfies_the_schedule_invariants_again
+        r is Ok && self.transitions_ok() ==> r->Ok_0.transitions_ok(), // @obl C10.delete_dummy.result_satisfies_the_schedule_invariants_again
+        r is Ok && usage_exact(self.depot_usage@, &self.network, self.vehicles@, self.tours@)
+            ==> usage_exact(r->Ok_0.depot_usage@, &r->Ok_0.network, r->Ok_0.vehicles@, r->Ok_0.tours@), // @obl C10.delete_dummy.result_satisfies_the_schedule_invariants_again
+        r is Ok && self.listings_match() ==> r->Ok_0.listings_match(), // @obl C10.delete_dummy.result_satisfies_the_schedule_invariants_again
+        r is Ok ==> forall|v: VehicleIdx| self.listed_ok(v) ==> #[trigger] r->Ok_0.listed_ok(v), // @obl C10.delete_dummy.result_satisfies_the_schedule_invariants_again
+        r is Ok ==> forall|t: VehicleTypeIdx| self.type_known(t) ==> #[trigger] r->Ok_0.type_known(t), // @obl C10.delete_dummy.result_satisfies_the_schedule_invariants_again
+        // ... and the two bundles: sv_ok (the precondition bundle of spawn_vehicle_for_path / (3)) and rs_ok (the one of
+        // remove_segment / (1)); the latter GIVEN the two conjuncts of sched_ok that say what the uninterpreted listing
+        // sched_vehicles(result) is (rd_listing_exact; A-iter: nothing is known about the listing of a new schedule value)
+        r is Ok && self.sv_ok() ==> r->Ok_0.sv_ok(), // @obl C10.delete_dummy.result_satisfies_the_schedule_invariants_again
+        r is Ok && self.rs_ok() && rd_listing_exact(&r->Ok_0) ==> r->Ok_0.rs_ok(), // @obl C10.delete_dummy.result_satisfies_the_schedule_invariants_again
 //@first
+        hide(Schedule::sv_ok);
+        hide(Schedule::rs_ok);
+        hide(Schedule::ids_ok);
+        hide(Schedule::formations_ok);
+        hide(Schedule::transitions_ok);
+        hide(usage_exact);
+        hide(Schedule::listings_match);
+        hide(Schedule::listed_ok);
+        hide(Schedule::type_known);
+        hide(Schedule::dummy_tour_ok);
+        hide(Schedule::dd_dummy_listing_exact);
+        hide(rd_listing_exact);
+        // CLOSURE: whatever schedule satisfies the Ok-postcondition (dummy_deleted) satisfies dd_closed
+        proof { lemma_dd_closure(self, dummy); } // @obl C10.delete_dummy.result_satisfies_the_schedule_invariants_again
         let ghost ids0 = self.dummy_ids_sorted@;
         proof { if self.dummy_tours@.contains_key(dummy) { lemma_unlist(ids0, dummy); } }
 //@end
@@ -585,10 +743,51 @@ impl Clone for TransitionCycle {
         // ... whose tour holds every trip of the dummy tour and only nodes compatible with its type (C01)
         r is Ok ==> activities_kept(&self.network, self.dummy_tours@[dummy_idx].nodes@, r->Ok_0.0.tours@[r->Ok_0.1].nodes@)
             && all_compatible(&self.network, r->Ok_0.0.tours@[r->Ok_0.1].nodes@, vehicle_type_idx), // @obl C01.spawn_to_replace_dummy.only_compatible_nodes
+        // ---- CLOSURE (C10 / C09 induction step): the result satisfies the schedule invariants of the precondition (sv_ok) again,
+        // conjunct by conjunct (sd_closed, env/dummy_ops_shim.vs): from the composition clause above, the closure of sv_ok under
+        // delete_dummy (lemma_dd_sv_ok) and under spawn_vehicle_for_path (spcl_lemma_closure, env/spawn_vehicle_shim.vs).
+        // instance validity: the network is the same
+        r is Ok ==> r->Ok_0.0.network == self.network && r->Ok_0.0.network.wf() && depot_lists_ok(&r->Ok_0.0.network)
+            && r->Ok_0.0.network.start_depots_ok(), // @obl C10.spawn_vehicle_to_replace_dummy_tour.result_satisfies_the_schedule_invariants_again
+        // ids / listings sorted
+        r is Ok ==> r->Ok_0.0.sv_ids_ok(), // @obl C10.spawn_vehicle_to_replace_dummy_tour.result_satisfies_the_schedule_invariants_again
+        // formations (the five clauses of sv_formations_ok, named spcl_* in env/spawn_vehicle_shim.vs): every activity has a
+        // formation, the trips' types are types of the network, C09: the cached unserved pair covers every duplicate-free node list
+        r is Ok ==> r->Ok_0.0.spcl_forms_cover_activities() && r->Ok_0.0.spcl_trips_typed() && r->Ok_0.0.spcl_unserved_covers(), // @obl C10.spawn_vehicle_to_replace_dummy_tour.result_satisfies_the_schedule_invariants_again
+        // ... the two MAGNITUDE clauses are not invariants of a spawn (the formations of the new tour's activities gain a vehicle):
+        // they hold again under the weakest hypothesis on the RESULT -- the clause itself for the formations that grew
+        r is Ok && r->Ok_0.0.spcl_grown_len_small(r->Ok_0.0.tours@[r->Ok_0.1].nodes@) ==> r->Ok_0.0.spcl_forms_len_small(), // @obl C10.spawn_vehicle_to_replace_dummy_tour.result_satisfies_the_schedule_invariants_again
+        r is Ok && r->Ok_0.0.spcl_grown_sums_fit(r->Ok_0.0.tours@[r->Ok_0.1].nodes@) ==> r->Ok_0.0.spcl_forms_sums_fit(), // @obl C10.spawn_vehicle_to_replace_dummy_tour.result_satisfies_the_schedule_invariants_again
+        // rotation cycles (the magnitude clause by counting: the cycles hold exactly the vehicles, ids are 16 bit), depot usage
+        r is Ok ==> r->Ok_0.0.transitions_ok(), // @obl C10.spawn_vehicle_to_replace_dummy_tour.result_satisfies_the_schedule_invariants_again
+        r is Ok ==> usage_exact(r->Ok_0.0.depot_usage@, &r->Ok_0.0.network, r->Ok_0.0.vehicles@, r->Ok_0.0.tours@), // @obl C10.spawn_vehicle_to_replace_dummy_tour.result_satisfies_the_schedule_invariants_again
+        // the bundle: the cost figure grows by the new tour's costs, so `costs <= 2^61` is a hypothesis on the result, too
+        r is Ok && r->Ok_0.0.spcl_grown_len_small(r->Ok_0.0.tours@[r->Ok_0.1].nodes@) && r->Ok_0.0.spcl_grown_sums_fit(r->Ok_0.0.tours@[r->Ok_0.1].nodes@)
+            && r->Ok_0.0.costs <= sched_cost_bound() ==> r->Ok_0.0.sv_ok(), // @obl C10.spawn_vehicle_to_replace_dummy_tour.result_satisfies_the_schedule_invariants_again
+        // the schedule-invariant readings of the other preconditions: known types stay known, matching listings still match, every
+        // OTHER dummy is still listed / a well-formed dummy tour, an exact dummy listing stays exact
+        r is Ok ==> forall|t: VehicleTypeIdx| self.type_known(t) ==> #[trigger] r->Ok_0.0.type_known(t), // @obl C10.spawn_vehicle_to_replace_dummy_tour.result_satisfies_the_schedule_invariants_again
+        r is Ok && self.listings_match() ==> r->Ok_0.0.listings_match(), // @obl C10.spawn_vehicle_to_replace_dummy_tour.result_satisfies_the_schedule_invariants_again
+        r is Ok ==> forall|u: VehicleIdx| self.vehicles@.contains_key(u) && self.listed_ok(u) ==> #[trigger] r->Ok_0.0.listed_ok(u), // @obl C10.spawn_vehicle_to_replace_dummy_tour.result_satisfies_the_schedule_invariants_again
+        r is Ok ==> r->Ok_0.0.listed_ok(r->Ok_0.1), // @obl C10.spawn_vehicle_to_replace_dummy_tour.result_satisfies_the_schedule_invariants_again
+        r is Ok ==> forall|d2: VehicleIdx| d2 != dummy_idx && self.dummy_listed_ok(d2) ==> #[trigger] r->Ok_0.0.dummy_listed_ok(d2), // @obl C10.spawn_vehicle_to_replace_dummy_tour.result_satisfies_the_schedule_invariants_again
+        r is Ok ==> forall|d2: VehicleIdx| d2 != dummy_idx && self.dummy_tours@.contains_key(d2) && self.dummy_tour_ok(d2)
+            ==> r->Ok_0.0.dummy_tours@.contains_key(d2) && #[trigger] r->Ok_0.0.dummy_tour_ok(d2), // @obl C10.spawn_vehicle_to_replace_dummy_tour.result_satisfies_the_schedule_invariants_again
+        r is Ok && self.dd_dummy_listing_exact() ==> r->Ok_0.0.dd_dummy_listing_exact(), // @obl C10.spawn_vehicle_to_replace_dummy_tour.result_satisfies_the_schedule_invariants_again
 //@closure any#0
     -> (b: bool) requires self.network.has(*n) ensures b == !self.network.sp_compatible(*n, vehicle_type_idx) /* @obl C01.spawn_to_replace_dummy.only_compatible_nodes */
 //@first
         hide(Schedule::sv_ok);
+        hide(Schedule::spcl_forms_cover_activities);
+        hide(Schedule::spcl_trips_typed);
+        hide(Schedule::spcl_unserved_covers);
+        hide(Schedule::spcl_forms_len_small);
+        hide(Schedule::spcl_forms_sums_fit);
+        hide(Schedule::spcl_grown_len_small);
+        hide(Schedule::spcl_grown_sums_fit);
+        hide(Schedule::listings_match);
+        hide(Schedule::listed_ok);
+        hide(Schedule::dd_dummy_listing_exact);
         let ghost path = self.dummy_tours@[dummy_idx].nodes@;
 //@after "let nodes"
         proof {
@@ -610,6 +809,8 @@ impl Clone for TransitionCycle {
                 }
                 lemma_spawn_pre_without_dummy(self, dummy_idx, &intermediate_schedule, vehicle_type_idx, path);
                 assert(intermediate_schedule.sv_ok()) by { reveal(Schedule::sv_ok); }
+                // CLOSURE: whatever the call below returns (its postcondition) satisfies sd_closed
+                lemma_sd_closure(self, dummy_idx, &intermediate_schedule, vehicle_type_idx); // @obl C10.spawn_vehicle_to_replace_dummy_tour.result_satisfies_the_schedule_invariants_again
             }
         }
 //@end
